@@ -18,6 +18,11 @@ void reset();
 void reset(int v);
 int measure(int w);
 double measure(double w, double h);
+int kind(int v);
+int kind(const std::string &s);
+int pair(int a, const std::string &s);
+int pair(int a, int b);
+const std::string & lastLabel();
 class Counter {
 public:
     Counter();
@@ -26,6 +31,7 @@ public:
     int get() const;
     void bump(int by);
     int combine(int a, double b);
+    const std::string & label() const;
     int n;
 };
 #endif
